@@ -1090,3 +1090,116 @@ pub proof fn lemma_trim_end_not_ows(s: Seq<u8>, lo: int, hi: int)
 {
     if hi > lo && is_ows(s[hi - 1]) { lemma_trim_end_not_ows(s, lo, hi - 1); }
 }
+
+// ------------------------------------------------------------------------------------------------ C17: capacity law and count
+// the outcome with capacity c1 equals the outcome with any larger capacity unless it is TooManyHeaders
+// @tags C17
+pub proof fn lemma_capacity_law(s: Seq<u8>, p: int, acc: Seq<SHdr>, cfg: HCfg, c1: int, c2: int)
+    requires 0 <= p, c1 <= c2, spec_hdrs(s, p, acc, cfg, c1) != SRes::<Seq<SHdr>>::Err(Error::TooManyHeaders),
+    ensures spec_hdrs(s, p, acc, cfg, c2) == spec_hdrs(s, p, acc, cfg, c1)
+    decreases s.len() - p
+{
+    lemma_line_progress(s, p, acc.len() == 0, cfg);
+    match spec_line(s, p, acc.len() == 0, cfg) {
+        LineRes::Header(h, n) => { if acc.len() < c1 { lemma_capacity_law(s, n, acc.push(h), cfg, c1, c2); } }
+        LineRes::Skip(n) => { lemma_capacity_law(s, n, acc, cfg, c1, c2); }
+        _ => {}
+    }
+}
+// ... and with capacity c1 it IS TooManyHeaders exactly when a larger capacity lets one more header line complete:
+// the larger-capacity parse then reports more than c1 headers, or fails/waits only after having stored c1 + 1 of them
+// @tags C17 C10
+pub proof fn lemma_too_many_iff(s: Seq<u8>, p: int, acc: Seq<SHdr>, cfg: HCfg, cap: int)
+    requires 0 <= p, acc.len() <= cap,
+    ensures spec_hdrs(s, p, acc, cfg, cap) matches SRes::Complete(hs, n) ==> acc.len() <= hs.len() <= cap && hs.subrange(0, acc.len() as int) == acc,
+    decreases s.len() - p
+{
+    lemma_line_progress(s, p, acc.len() == 0, cfg);
+    match spec_line(s, p, acc.len() == 0, cfg) {
+        LineRes::Header(h, n) => {
+            if acc.len() < cap {
+                lemma_too_many_iff(s, n, acc.push(h), cfg, cap);
+                if let SRes::Complete(hs, e) = spec_hdrs(s, n, acc.push(h), cfg, cap) {
+                    assert(hs.subrange(0, acc.len() as int) =~= hs.subrange(0, acc.len() as int + 1).subrange(0, acc.len() as int));
+                    assert(acc.push(h).subrange(0, acc.len() as int) =~= acc);
+                }
+            }
+        }
+        LineRes::Skip(n) => { lemma_too_many_iff(s, n, acc, cfg, cap); }
+        LineRes::End(n) => { assert(acc.subrange(0, acc.len() as int) =~= acc); }
+        _ => {}
+    }
+}
+
+// ------------------------------------------------------------------------------------------------ C04: order and containment of the reported ranges
+pub open spec fn hdr_wf(h: SHdr) -> bool { 0 <= h.name_lo < h.name_hi && h.name_hi < h.val_lo && h.val_lo <= h.val_hi }
+// every header lies in [from, to), they are well-formed and strictly ordered
+pub open spec fn hdrs_in(hs: Seq<SHdr>, from: int, to: int) -> bool {
+    &&& (forall|i: int| 0 <= i < hs.len() ==> hdr_wf(#[trigger] hs[i]) && from <= hs[i].name_lo && hs[i].val_hi < to)
+    &&& (forall|i: int, j: int| 0 <= i < j < hs.len() ==> (#[trigger] hs[i]).val_hi < (#[trigger] hs[j]).name_lo)
+}
+// @tags C04
+pub proof fn lemma_hdrs_order(s: Seq<u8>, p: int, acc: Seq<SHdr>, cfg: HCfg, cap: int, from: int)
+    requires 0 <= from <= p, hdrs_in(acc, from, p),
+    ensures spec_hdrs(s, p, acc, cfg, cap) matches SRes::Complete(hs, n) ==> hdrs_in(hs, from, n) && n <= s.len(),
+    decreases s.len() - p
+{
+    lemma_line_progress(s, p, acc.len() == 0, cfg);
+    match spec_line(s, p, acc.len() == 0, cfg) {
+        LineRes::Header(h, n) => {
+            if acc.len() < cap {
+                let a2 = acc.push(h);
+                assert(hdrs_in(a2, from, n)) by {
+                    assert forall|i: int| 0 <= i < a2.len() implies hdr_wf(#[trigger] a2[i]) && from <= a2[i].name_lo && a2[i].val_hi < n by {
+                        if i < acc.len() { assert(a2[i] == acc[i]); }
+                    }
+                    assert forall|i: int, j: int| 0 <= i < j < a2.len() implies (#[trigger] a2[i]).val_hi < (#[trigger] a2[j]).name_lo by {
+                        assert(a2[i] == acc[i]);
+                        if j < acc.len() { assert(a2[j] == acc[j]); }
+                    }
+                }
+                lemma_hdrs_order(s, n, a2, cfg, cap, from);
+            }
+        }
+        LineRes::Skip(n) => {
+            assert(hdrs_in(acc, from, n)) by {
+                assert forall|i: int| 0 <= i < acc.len() implies hdr_wf(#[trigger] acc[i]) && from <= acc[i].name_lo && acc[i].val_hi < n by {}
+            }
+            lemma_hdrs_order(s, n, acc, cfg, cap, from);
+        }
+        LineRes::End(n) => {
+            assert(hdrs_in(acc, from, n)) by {
+                assert forall|i: int| 0 <= i < acc.len() implies hdr_wf(#[trigger] acc[i]) && from <= acc[i].name_lo && acc[i].val_hi < n by {}
+            }
+        }
+        _ => {}
+    }
+}
+// request: method, then path, then the headers, all inside the consumed head [0, n)
+// @tags C04
+pub proof fn lemma_request_order(s: Seq<u8>, multi: bool, sbf: bool, ign: bool, cap: int)
+    ensures ({
+        let r = spec_request(s, multi, sbf, ign, cap);
+        r.res matches SRes::Complete(hs, n) ==> (r.method matches Some((mlo, mhi)) && r.path matches Some((plo, phi))
+            && 0 <= mlo < mhi && mhi < plo && plo < phi && phi < n && n <= s.len() && hdrs_in(hs, phi + 1, n))
+    })
+{
+    if spec_request(s, multi, sbf, ign, cap).res is Complete {
+        lemma_empty_lines_bounds(s, 0);
+        let c0 = spec_empty_lines(s, 0)->Complete_1;
+        lemma_token_hygiene(s, c0);
+        let c1 = spec_token(s, c0)->Complete_1;
+        if multi { lemma_first_not_props(cls_sp(), s, c1); }
+        let c2 = opt_spaces(multi, s, c1)->Complete_1;
+        lemma_uri_hygiene(s, c2);
+        let c3 = spec_uri(s, c2)->Complete_1;
+        if multi { lemma_first_not_props(cls_sp(), s, c3); }
+        let c4 = opt_spaces(multi, s, c3)->Complete_1;
+        let c5 = spec_version(s, c4)->Complete_1;
+        let c6 = spec_eol(s, c5, Error::NewLine)->Complete_1;
+        let cfg = HCfg { sp_after_name: false, fold: false, sp_before_first: sbf, ignore: ign };
+        assert(hdrs_in(Seq::<SHdr>::empty(), c3, c6));
+        lemma_hdrs_order(s, c6, Seq::empty(), cfg, cap, c3);
+        lemma_hdrs_end_bound(s, c6, Seq::empty(), cfg, cap);
+    }
+}
